@@ -275,6 +275,102 @@ def r15_4(run):
     run.ob('R15.4', u, u.node, 'waiting mode comes from the caller', ok, slot='mode', message='await_all = %s' % [src(a.value) for a in aa])
 
 
+def r15_7(run):
+    """Outcome oracle for one own event, by path enumeration of hs_desc over the facts its tests consult (the wait has not
+    completed yet; the event is this service's and, for UPLOADED, names an attempted directory):
+      UPLOAD   -> nothing fires
+      UPLOADED -> wait-for-one: success; await-all: success iff every attempt has been answered
+      FAILED   -> every attempt failed: failure; await-all with a confirmation and every attempt answered: success; else nothing
+    each at most once per event."""
+    u, hs = AW(run)
+    g, lg = legs(hs)
+    scen = []
+    for aa in (False, True):
+        scen.append(('UPLOAD', dict(aa=aa, allfailed=False, conf=False, allans=False), (0, 0)))
+        scen.append(('UPLOADED', dict(aa=aa, allfailed=False, conf=True, allans=True), (1, 0)))
+        scen.append(('UPLOADED', dict(aa=aa, allfailed=False, conf=True, allans=False), (0, 0) if aa else (1, 0)))
+        scen.append(('FAILED', dict(aa=aa, allfailed=True, conf=False, allans=True), (0, 1)))
+        scen.append(('FAILED', dict(aa=aa, allfailed=False, conf=False, allans=False), (0, 0)))
+        if aa:
+            scen.append(('FAILED', dict(aa=aa, allfailed=False, conf=True, allans=True), (1, 0)))
+            scen.append(('FAILED', dict(aa=aa, allfailed=False, conf=True, allans=False), (0, 0)))
+    act = CUR['roles']['action']
+    hs_defs = local_defs(hs)
+    k = 0
+    for leg, env, want in scen:
+        unknown = []
+
+        def hook(node, val, trail, leg=leg, env=env):
+            a = node.ast
+            neg = False
+            while isinstance(a, ast.UnaryOp) and isinstance(a.op, ast.Not):
+                a, neg = a.operand, not neg
+            if isinstance(a, ast.Name):
+                d_ = single_def(hs_defs, a.id)
+                if d_ is not None and d_[0] == 'expr':
+                    a = d_[1]
+            t = nsrc(a).replace(' ', '')
+            v = None
+            if isinstance(a, ast.Compare) and dotted(a.left) == act and isinstance(const(a.comparators[0]), str):
+                v = (const(a.comparators[0]) == leg) == isinstance(a.ops[0], ast.Eq)
+            elif t.startswith('hostname_matches('):
+                v = True
+            elif t.endswith('inattempted_uploads') and isinstance(a, ast.Compare) and isinstance(a.ops[0], ast.In):
+                v = True
+            elif t == 'uploaded.called':
+                v = False
+            elif t == 'await_all':
+                v = env['aa']
+            elif t == 'confirmed_uploads':
+                v = env['conf']
+            elif t == 'failed_uploads':
+                v = leg == 'FAILED'
+            elif isinstance(a, ast.Compare) and len(a.ops) == 1 and isinstance(a.ops[0], (ast.Eq, ast.NotEq)):
+                sides = sorted([nsrc(a.left).replace(' ', ''), nsrc(a.comparators[0]).replace(' ', '')])
+                if sides == ['attempted_uploads', 'failed_uploads']:
+                    v = env['allfailed']
+                elif 'len(attempted_uploads)' in sides and any(x in ('len(failed_uploads)+len(confirmed_uploads)', 'len(confirmed_uploads)+len(failed_uploads)') for x in sides):
+                    v = env['allans']
+                if v is not None and isinstance(a.ops[0], ast.NotEq):
+                    v = not v
+            if v is None:
+                if not is_noise(a) and t not in ('progress',):
+                    unknown.append(src(a))
+                return None
+            return (not v) if neg else v
+        outcomes = set()
+        paths = g.paths(eval_hook=hook, follow_exc=False, pure_calls=('translate_progress', 'hostname_matches'))
+        for p_ in paths:
+            run.paths_enumerated += 1
+            if p_.exit == 'raise':
+                continue
+            cb = sum(1 for n, _ in p_.steps if n.kind == 'stmt' for a in node_asts(n) if is_mut(a) == 'uploaded.callback')
+            eb = sum(1 for n, _ in p_.steps if n.kind == 'stmt' for a in node_asts(n) if is_mut(a) == 'uploaded.errback')
+            outcomes.add((cb, eb, p_.describe(10)))
+        k += 1
+        desc = '%s, %s, %s' % (leg, 'await-all' if env['aa'] else 'wait-for-one',
+                               'every attempt failed' if env['allfailed'] else ('%sconfirmed, %s' % ('' if env['conf'] else 'none ', 'all answered' if env['allans'] else 'some outstanding')))
+        if unknown and len(set((c, e) for c, e, _ in outcomes)) > 1:
+            run.ob('R15.7', hs, hs.node, 'outcome decided for [%s]' % desc, None, message='hs_desc consults %s, which the oracle does not model' % sorted(set(unknown))[:2])
+            continue
+        for c, e, d in sorted(outcomes):
+            run.ob('R15.7', hs, hs.node, 'own event [%s]: success fired %d time(s), failure %d' % (desc, want[0], want[1]), (c, e) == want, slot='outcome:%s' % desc,
+                   message='hs_desc on [%s] fires success %d and failure %d times (wanted %d / %d)' % (desc, c, e, want[0], want[1]), path=d)
+    run.floor('R15.7', 'event scenarios', k, 12)
+    # the waiting mode is the caller's: await_all is the parameter itself, with None meaning wait-for-one
+    aa = [n for n in walk_unit(u) if isinstance(n, ast.Assign) and dotted(n.targets[0]) == CUR['roles']['mode']]
+    for a in aa:
+        v = a.value
+        ok = dotted(v) == 'await_all_uploads' or (isinstance(v, ast.Call) and dotted(v.func) == 'bool' and dotted(v.args[0]) == 'await_all_uploads')
+        if isinstance(v, ast.IfExp) and isinstance(v.test, ast.Compare) and dotted(v.test.left) == 'await_all_uploads' and is_none(v.test.comparators[0]):
+            none_leg, some_leg = (v.body, v.orelse) if isinstance(v.test.ops[0], ast.Is) else (v.orelse, v.body)
+            ok = const(none_leg) is False and dotted(some_leg) == 'await_all_uploads'
+        if isinstance(v, ast.BoolOp) and isinstance(v.op, ast.Or) and dotted(v.values[0]) == 'await_all_uploads' and const(v.values[-1]) is False:
+            ok = True
+        run.ob('R15.7', u, a, 'the waiting mode is what the caller asked for (None = wait for one)', ok, slot='mode-value',
+               message='await_all = %s: the requested waiting mode is not honoured' % src(v)[:60])
+
+
 def r15_5(run):
     """the listener is armed before the creating command in every creator"""
     sites = [(MOD + '._add_ephemeral_service', 'queue_command'),
@@ -324,6 +420,7 @@ def r15_6(run):
 
 
 RULES = [
+    ('R15.7', 'outcome oracle: path enumeration of hs_desc over (event kind, waiting mode, all-failed, any-confirmed, all-answered) with the wait still pending', r15_7),
     ('R15.6', 'no dropped Deferred in the creation coroutines (subscribe / command / wait / unsubscribe are all awaited)', r15_6),
     ('R15.1', 'guard agreement across legs: every mutation/fire in hs_desc is behind hostname_matches(event address); field positions per control-spec 4.1.25', r15_1),
     ('R15.2', 'every fire of the wait is under "not uploaded.called"; fired only by the handler', r15_2),
@@ -335,6 +432,10 @@ RULES = [
 from ..selftest import M  # noqa: E402
 F = 'txtorcon/onion.py'
 MUTANTS = [
+    M('failed-last-never-completes', F, "                    elif await_all and confirmed_uploads:\n                        # this failure may have been the last\n                        # outstanding attempt\n                        if (len(failed_uploads) + len(confirmed_uploads)) == len(attempted_uploads):\n                            uploaded.callback(onion)", "                    elif await_all and confirmed_uploads:\n                        if (len(failed_uploads) + len(confirmed_uploads)) != len(attempted_uploads):\n                            uploaded.callback(onion)", ['R15.7']),
+    M('failed-last-no-callback', F, "                        if (len(failed_uploads) + len(confirmed_uploads)) == len(attempted_uploads):\n                            uploaded.callback(onion)\n\n    # the first", "                        if (len(failed_uploads) + len(confirmed_uploads)) == len(attempted_uploads):\n                            pass\n\n    # the first", ['R15.7']),
+    M('mode-inverted', F, "    await_all = False if await_all_uploads is None else await_all_uploads", "    await_all = False if await_all_uploads is not None else await_all_uploads", ['R15.7', 'R15.4']),
+    M('mode-default-all', F, "    await_all = False if await_all_uploads is None else await_all_uploads", "    await_all = True if await_all_uploads is None else await_all_uploads", ['R15.7', 'R15.4']),
     M('subscribe-not-awaited', F, "    yield tor_protocol.add_event_listener('HS_DESC', hs_desc)\n    try:", "    tor_protocol.add_event_listener('HS_DESC', hs_desc)\n    try:", ['R15.6']),
     M('failed-leg-unguarded', F, "        elif subtype == 'FAILED':\n            if hostname_matches('{}.onion'.format(args[1])):\n                failed_uploads.add(args[3])", "        elif subtype == 'FAILED':\n            if True:\n                failed_uploads.add(args[3])", ['R15.1']),
     M('upload-leg-unguarded', F, "        if subtype == 'UPLOAD':\n            if hostname_matches('{}.onion'.format(args[1])):", "        if subtype == 'UPLOAD':\n            if True:", ['R15.1']),
